@@ -80,18 +80,50 @@ Theorem poolready_not_withdrawn :
 Proof. exact C15Proofs.poolready_not_withdrawn_lemma. Qed.
 Print Assumptions poolready_not_withdrawn.
 
-(* (5) in every reachable state every tracked worker with more than
-   WorkerErrKill errors has had a kill requested *)
-Theorem errors_request_kill :
-  forall fx c evs, all_kill_ok c (run fx c evs) = true.
-Proof. exact C15Proofs.errors_request_kill_lemma. Qed.
-Print Assumptions errors_request_kill.
+(* (5) "a worker that accumulates more than the configured number of errors has
+   a kill requested for it".
+   errors_request_kill : forall c evs, all_kill_ok c (run no_fixes c evs) = true
+   is FALSE of the code as found: ErrWorker is not a Multi state, so an error
+   raised while ErrWorker is still active does not reach ErrWorkerState and is
+   never counted. Witness: limit 1, three errors for worker 1 in a row - one
+   counted, no kill requested. *)
+Theorem errors_request_kill_refuted :
+  exists c evs,
+    all_kill_ok c (run no_fixes c evs) = false /\
+    s_lost (run no_fixes c evs) = true /\
+    (exists i, wfind 1 (s_workers (run no_fixes c evs)) = Some i /\
+               w_delivered i = 3%N /\ w_errs i = 1%N /\ w_killreq i = false).
+Proof. exact C15Proofs.errors_request_kill_refuted_lemma. Qed.
+Print Assumptions errors_request_kill_refuted.
 
-(* ... by the very error event that takes the count over the limit *)
+(* what does hold: the clause for every event sequence in which no countable
+   error of a tracked worker arrives while ErrWorker is active ... *)
+Theorem errors_request_kill_partial :
+  forall fx c evs,
+    s_lost (run fx c evs) = false -> all_kill_ok c (run fx c evs) = true.
+Proof. exact C15Proofs.errors_request_kill_partial_lemma. Qed.
+Print Assumptions errors_request_kill_partial.
+
+(* ... and, unconditionally, for the errors ErrWorkerState has counted *)
+Theorem counted_errors_request_kill :
+  forall fx c evs, all_kill_counted_ok c (run fx c evs) = true.
+Proof. exact C15Proofs.counted_errors_request_kill_lemma. Qed.
+Print Assumptions counted_errors_request_kill.
+
+(* the repair: ErrWorker declared Multi. Then the clause holds for every event
+   sequence. *)
+Theorem errors_request_kill_fixed :
+  forall c evs, all_kill_ok c (run err_multi_fix c evs) = true.
+Proof. exact C15Proofs.errors_request_kill_fixed_lemma. Qed.
+Print Assumptions errors_request_kill_fixed.
+
+(* the request is issued by the very (handled) error event that takes the
+   count over the limit *)
 Theorem error_over_limit_logged :
   forall fx c evs k i,
     let s := run fx c evs in
     wfind k (s_workers s) = Some i -> over_limit c (w_errs i + 1) = true ->
+    (fx_err_multi fx || negb (s_errworker s)) = true ->
     let s' := fst (step fx c s (EErr k true)) in
     s_killlog s' = k :: s_killlog s /\
     exists i', wfind k (s_workers s') = Some i' /\ w_killreq i' = true /\
@@ -118,7 +150,9 @@ Example poolready_nonvacuous :
   ready (run no_fixes c (up ++ [ERekey 2 12; ETryReady])) = 2%N /\
   s_poolready (run no_fixes c (up ++ [ERekey 2 12; ETryReady; ETryUnready])) = true /\
   s_poolready (run no_fixes c (up ++ [ERekey 2 12; ETryReady; EErr 12 true; ETryUnready])) = false /\
-  s_killlog (run no_fixes c (up ++ [ERekey 2 12; EErr 12 true; EErr 12 true])) = [12] /\
-  s_killlog (run no_fixes c (up ++ [ERekey 2 12; EErr 12 true; EErr 12 false])) = [].
+  s_killlog (run no_fixes c (up ++ [ERekey 2 12; EErr 12 true; EErrClear; EErr 12 true])) = [12] /\
+  s_killlog (run no_fixes c (up ++ [ERekey 2 12; EErr 12 true; EErrClear; EErr 12 false])) = [] /\
+  s_killlog (run no_fixes c (up ++ [ERekey 2 12; EErr 12 true; EErr 12 true])) = [] /\
+  s_killlog (run err_multi_fix c (up ++ [ERekey 2 12; EErr 12 true; EErr 12 true])) = [12].
 Proof. exact C15Proofs.poolready_nonvacuous_lemma. Qed.
 Print Assumptions poolready_nonvacuous.
